@@ -153,6 +153,7 @@ func isolationMatrix() []isoCell {
 	// float rules (documented in j5.schema.v1.FloatField.Rules)
 	pF := func(v float64) *float64 { return &v }
 	rule("float-FLOAT64/minimum", tFloat("FLOAT64"), &jRules{FMin: pF(0.5)})
+	rule("float-FLOAT64/not-exact-in-float32", tFloat("FLOAT64"), &jRules{FMin: pF(0.1), FMax: pF(3.141592653589793)})
 	rule("float-FLOAT32/min-max-exclusive", tFloat("FLOAT32"), &jRules{FMin: pF(0), FMax: pF(1), FExMax: pB(true)})
 	rule("date/minimum", tScalar(kDate), &jRules{SMin: pS("2020-01-01")})
 	rule("date/maximum-exclusive", tScalar(kDate), &jRules{SMax: pS("2030-12-31"), SExMax: pB(true)})
@@ -183,6 +184,10 @@ func isolationMatrix() []isoCell {
 	// enum rules need an enum: declared beside (that is part of the feature)
 	add("rule/enum/in", oneFieldBundle(fld("value", tRef(kEnum, "Color", "iso.v1.Color").with(func(t *jT) { t.Rules = &jRules{In: []string{"RED", "BLUE"}} })), enumDecl("Color", "RED", "GREEN", "BLUE")))
 	add("rule/enum/notIn", oneFieldBundle(fld("value", tRef(kEnum, "Color", "iso.v1.Color").with(func(t *jT) { t.Rules = &jRules{NotIn: []string{"GREEN"}} })), enumDecl("Color", "RED", "GREEN", "BLUE")))
+	add("rule/enum/notIn-unspecified", oneFieldBundle(fld("value", tRef(kEnum, "Color", "iso.v1.Color").with(func(t *jT) { t.Rules = &jRules{NotIn: []string{"UNSPECIFIED", "GREEN"}} })), enumDecl("Color", "RED", "GREEN", "BLUE")))
+	add("rule/enum/in-unspecified", oneFieldBundle(fld("value", tRef(kEnum, "Color", "iso.v1.Color").with(func(t *jT) { t.Rules = &jRules{In: []string{"UNSPECIFIED", "GREEN"}} })), enumDecl("Color", "RED", "GREEN", "BLUE")))
+	add("rule/enum-explicit-zero/in", oneFieldBundle(fld("value", tRef(kEnum, "Color", "iso.v1.Color").with(func(t *jT) { t.Rules = &jRules{In: []string{"RED", "BLUE"}} })), enumDecl("Color", "UNSPECIFIED", "RED", "GREEN", "BLUE")))
+	add("rule/enum-explicit-zero/notIn", oneFieldBundle(fld("value", tRef(kEnum, "Color", "iso.v1.Color").with(func(t *jT) { t.Rules = &jRules{NotIn: []string{"GREEN"}} })), enumDecl("Color", "UNSPECIFIED", "RED", "GREEN", "BLUE")))
 	// list rules
 	add("list/string/searchable", oneFieldBundle(fld("value", tScalar(kString).with(func(t *jT) { t.List = &jList{Searchable: true} }))))
 	for _, tn := range []string{"integer-INT32", "integer-INT64", "integer-UINT32", "integer-UINT64", "float-FLOAT32", "float-FLOAT64", "timestamp", "decimal"} {
@@ -220,6 +225,8 @@ func isolationMatrix() []isoCell {
 		return &jT{Kind: kObject, Inline: &jDecl{Kind: kObject, Fields: []*jF{fld("innerId", tKeyF("id62")), fld("label", tScalar(kString))}}}
 	}
 	add("inline/object", oneFieldBundle(fld("inner", inlineObj())))
+	// a nested type that takes the name of its parent (by override here; a field called like its parent object does the same)
+	add("inline/object-named-as-parent", oneFieldBundle(fld("inner", inlineObj().with(func(t *jT) { t.InlineName = "Holder" }))))
 	add("inline/object-named", oneFieldBundle(fld("inner", inlineObj().with(func(t *jT) { t.InlineName = "Custom" }))))
 	// (a description inside the field body belongs to the property: the merged scope resolves it there first)
 	add("inline/object-described", oneFieldBundle(&jF{Name: "inner", T: inlineObj(), Desc: "Inline description"}))
@@ -323,6 +330,23 @@ func isolationMatrix() []isoCell {
 	imp("package-short", []*jImport{{Path: "other.v1"}}, "other.Shared")
 	imp("package-alias", []*jImport{{Path: "other.v1", Alias: "oth"}}, "oth.Shared")
 	imp("file", []*jImport{{Path: "other/v1/types.j5s.proto", File: true}}, "other.v1.Shared")
+	// the imported package is used in one place only (each place alone: nothing else pulls the dependency in)
+	impOnly := func(id string, elems ...*jElem) {
+		f := &jFile{Path: "iso/v1/cell.j5s", Pkg: "iso.v1", Imports: []*jImport{{Path: "other.v1"}}, Elems: elems}
+		add("import-only/"+id, &jBundle{Files: []*jFile{f, other()}})
+	}
+	sharedRef := func() *jT { return tRef(kObject, "other.v1.Shared", "other.v1.Shared") }
+	levelRef := func() *jT { return tRef(kEnum, "other.v1.Level", "other.v1.Level") }
+	impOnly("array-item-object", objDecl("Holder", fld("shareds", tArr(sharedRef()))))
+	impOnly("map-value-object", objDecl("Holder", fld("shareds", tMap(sharedRef()))))
+	impOnly("array-item-enum", objDecl("Holder", fld("levels", tArr(levelRef()))))
+	impOnly("map-value-enum", objDecl("Holder", fld("levels", tMap(levelRef()))))
+	impOnly("oneof-option", oneofDecl("Pick", fld("shared", sharedRef())))
+	impOnly("inline-nested-field", objDecl("Holder", fld("inner", &jT{Kind: kObject, Inline: &jDecl{Kind: kObject, Fields: []*jF{fld("shared", sharedRef())}}})))
+	impOnly("inline-nested-array-item", objDecl("Holder", fld("inner", &jT{Kind: kObject, Inline: &jDecl{Kind: kObject, Fields: []*jF{fld("levels", tArr(levelRef()))}}})))
+	impOnly("method-request", &jElem{Service: &jService{Name: "Things", BasePath: "/iso/v1", Methods: []*jMethod{{Name: "PutThing", HTTPMethod: "POST", Path: "/things", Req: []*jF{fld("shared", sharedRef())}, HasRes: true, Res: []*jF{fld("ok", tScalar(kBool))}}}}})
+	impOnly("method-response-array", &jElem{Service: &jService{Name: "Things", BasePath: "/iso/v1", Methods: []*jMethod{{Name: "GetThing", HTTPMethod: "GET", Path: "/things", HasRes: true, Res: []*jF{fld("shareds", tArr(sharedRef()))}}}}})
+	impOnly("topic-message", &jElem{Topic: &jTopic{Name: "Things", Type: "publish", Messages: []*jTopicMsg{{Name: "SendThing", Fields: []*jF{fld("levels", tMap(levelRef()))}}}}})
 	// same package, two files
 	add("multi-file/one-way", &jBundle{Files: []*jFile{
 		{Path: "iso/v1/a.j5s", Pkg: "iso.v1", Elems: []*jElem{objDecl("Alpha", fld("beta", tRef(kObject, "Beta", "iso.v1.Beta")))}},
@@ -541,7 +565,14 @@ func (g *j5Gen) randomBundle() *jBundle {
 						target := o.objects[g.rng.Intn(len(o.objects))]
 						alias, refText := g.importFor(f, o.pkg)
 						_ = alias
-						d.Fields = append(d.Fields, fld("imported"+target, tRef(kObject, refText+"."+target, o.pkg+"."+target)))
+						rt := tRef(kObject, refText+"."+target, o.pkg+"."+target)
+						switch g.rng.Intn(4) {
+						case 0:
+							rt = tArr(rt)
+						case 1:
+							rt = tMap(rt)
+						}
+						d.Fields = append(d.Fields, fld("imported"+target, rt))
 					}
 				}
 				f.Elems = append(f.Elems, &jElem{Decl: d})
